@@ -27,8 +27,11 @@ def gen_fd(rng, fd, files):
     d = {"kind": kind, "pos": pos, "flags": flags, "ino": 100 + fd}
     if kind == "file":
         path = pick(rng, ["/tmp/f%d" % fd, "/var/log/x %d.log" % fd,
-                          "/data/a:b%d" % fd])
+                          "/data/a:b%d" % fd, "/tmp/report%d (deleted)" % fd])
         files[path] = {"t": "f", "data": "x"}
+        if path.endswith(" (deleted)") and rng.random() < 0.5:
+            # a sibling without the suffix exists too
+            files[path[:-10]] = {"t": "f", "data": "sibling"}
         d["target"] = path
     elif kind == "deleted":
         path = "/tmp/del%d" % fd
